@@ -94,6 +94,7 @@ def _correspondence_once(ctx, rep=0):
             if got != want:
                 ctx.disagree('C07/identity-bitwise', {'entry': j.e.name, 'inverse': j.inverse}, got[:8], want[:8], 'identity features are not bit-identical to the inputs')
     context_history(ctx, gen)
+    mask_history(ctx, gen)
 
 
 def context_history(ctx, gen, report=None):
@@ -126,6 +127,68 @@ def context_history(ctx, gen, report=None):
                        {'class': e.name.split('/')[0], 'symptom': 'context-ignored'})
 
 
+def mask_history(ctx, gen, report=None):
+    """the split is the one of the mask GIVEN AT CONSTRUCTION: a caller who builds several layers from one mask tensor / array and flips
+    it in place between them (as SimpleRealNVP does with `mask *= -1`) must get layers that keep their own split — identity features of
+    the original mask stay bit-identical, its transformed features are transformed; and the layers of SimpleRealNVP alternate"""
+    import numpy as np
+    import nflows.transforms as T
+    from nflows.flows.realnvp import SimpleRealNVP
+    from nflows.transforms.coupling import CouplingTransform
+    makers = {'AffineCoupling': lambda m: T.AffineCouplingTransform(m, R.net_fn('res', None, 4)),
+              'AdditiveCoupling': lambda m: T.AdditiveCouplingTransform(m, R.net_fn('res', None, 4)),
+              'rqCoupling': lambda m: T.PiecewiseRationalQuadraticCouplingTransform(m, R.net_fn('res', None, 4), num_bins=3, tails='linear', tail_bound=2.0)}
+    for cls, mk in makers.items():
+        for src in ('float-tensor', 'int-tensor', 'numpy'):
+            for pat in ([1, -1, 1, -1], [-1, -1, 1], [1, 0]):
+                m = {'float-tensor': lambda: torch.tensor([float(v) for v in pat]), 'int-tensor': lambda: torch.tensor(pat),
+                     'numpy': lambda: np.array(pat, dtype=np.float32)}[src]()
+                torch.manual_seed(int(torch.randint(0, 2 ** 31 - 1, (1,), generator=gen)))
+                t = mk(m)
+                m *= -1                      # the caller re-uses its mask object for the next layer
+                R.perturb(t, 'normal', gen); t = t.double().eval()
+                ident = [i for i, v in enumerate(pat) if v <= 0]
+                trans = [i for i, v in enumerate(pat) if v > 0]
+                x = torch.randn(3, len(pat), generator=gen, dtype=torch.float64)
+                why = None
+                for inverse in (False, True):
+                    k, y, ld = R.impl_call(t, x, None, inverse)
+                    if k != 'ok':
+                        why = 'raised %s' % k; break
+                    if not torch.equal(y[:, ident], x[:, ident]):
+                        why = 'features that the construction-time mask marks as identity were changed'; break
+                    if bool((y[:, trans] == x[:, trans]).all()):
+                        why = 'features that the construction-time mask marks as transformed pass through unchanged'; break
+                case = {'class': cls, 'mask': pat, 'mask_source': src, 'history': ['layer = %s(mask, ...)' % cls, 'mask *= -1', 'layer(x)'], 'x': x.reshape(-1).tolist()}
+                if report is None:
+                    ctx.case(key=('mask-history', cls, src, tuple(pat)), branch='mask-history/' + src, nontrivial=True, n=int(x.numel()))
+                    if why:
+                        ctx.disagree('C07/mask-history', case, why, 'split of the construction-time mask', why)
+                elif why:
+                    report('%s built from a %s mask that the caller flips in place afterwards: %s' % (cls, src, why), case, {'class': cls, 'symptom': 'mask-aliased'})
+    # SimpleRealNVP: consecutive coupling layers transform complementary halves
+    for feats in (2, 5):
+        torch.manual_seed(int(torch.randint(0, 2 ** 31 - 1, (1,), generator=gen)))
+        flow = SimpleRealNVP(features=feats, hidden_features=6, num_layers=4, num_blocks_per_layer=1, batch_norm_between_layers=False)
+        R.perturb(flow, 'normal', gen); flow = flow.double().eval()
+        layers = [mod for mod in flow.modules() if isinstance(mod, CouplingTransform)]
+        x = torch.randn(3, feats, generator=gen, dtype=torch.float64)
+        moved = []
+        for L in layers:
+            k, y, _ = R.impl_call(L, x, None, False)
+            moved.append(None if k != 'ok' else [bool((y[:, i] != x[:, i]).any()) for i in range(feats)])
+        want = [[(i % 2 == 1) if (k % 2 == 0) else (i % 2 == 0) for i in range(feats)] for k in range(len(layers))]
+        bad = moved != want
+        case = {'class': 'SimpleRealNVP', 'features': feats, 'layers': len(layers), 'moved_features_per_layer': moved, 'x': x.reshape(-1).tolist()}
+        if report is None:
+            ctx.case(key=('mask-history', 'SimpleRealNVP', feats), branch='mask-history/SimpleRealNVP', nontrivial=True, n=int(x.numel()))
+            if bad:
+                ctx.disagree('C07/mask-history', case, moved, want, 'coupling layers of SimpleRealNVP do not alternate between the two halves')
+        elif bad:
+            report('SimpleRealNVP(features=%d): the coupling layers do not alternate between the two halves of the features (layer k moves %s)' % (feats, moved),
+                   case, {'class': 'SimpleRealNVP', 'symptom': 'mask-aliased'})
+
+
 def search(ctx):
     """the property's oracle on the implementation: bitwise identity, conditioner input, dependence pattern"""
     import nflows.transforms as T
@@ -133,6 +196,9 @@ def search(ctx):
     seen_ch = set()
     context_history(ctx, torch.Generator().manual_seed(ctx.seed + 78),
                     report=lambda what, case, match: (ctx.fail(what, case, match=match), seen_ch.add(match['class'])) if match['class'] not in seen_ch else None)
+    seen_mh = set()
+    mask_history(ctx, torch.Generator().manual_seed(ctx.seed + 79),
+                 report=lambda what, case, match: (ctx.fail(what, case, match=match), seen_mh.add(match['class'])) if match['class'] not in seen_mh else None)
     for e in mask_entries(ctx):
         t = tcorr.build(e, gen, torch.float64, 'normal')
         mask = e.extra['mask']
